@@ -1,6 +1,6 @@
 (** Pinned statements of the C12 property theorems: compiled on every check, so a theorem cannot be
     weakened silently. *)
-From V Require Import Base.Util Gql.Ast C12.Model C12.Spec C12.Proofs2 C12.Properties.
+From V Require Import Base.Util Gql.Ast C12.Model C12.Spec C12.Proofs2 C12.Proofs4 C12.Properties.
 
 Check (C12_to_json_roundtrip :
   forall ds, forallb wf_def ds = true -> toModel (JObj (document_fields ds)) = Some (erase_defs ds)).
@@ -64,6 +64,35 @@ Check (C12_undefined_spread_panics_refuted :
     /\ (forall o n, In (DOp o) defs -> ~ reach (get_frag defs) (op_sel o) n)
     /\ runtime_defs defs (DFrag f) = Panic msg_fragment_not_found
     /\ document_runtime_texts (mkOpDoc pos0 defs) = Panic msg_fragment_not_found).
+Check (C12_parse_ser :
+  forall j, no_num j = true -> jparse (ser j) = Some j).
+Check (C12_printer_builds_no_numbers :
+  forall ds, no_num (JObj (document_fields ds)) = true).
+Check (C12_text_roundtrip :
+  forall ds, forallb wf_def ds = true ->
+  read_document (print_to_json_string (document_fields ds)) = Some (erase_defs ds)).
+Check (C12_operation_text_denotes :
+  forall defs o,
+  In (DOp o) defs -> forallb wf_def defs = true -> spreads_defined_b defs = true ->
+  exists t names fs,
+    runtime_text defs (DOp o) = Ok t
+    /\ read_document t = Some (erase_op o :: map erase_frag fs)
+    /\ Forall2 (fun n f => get_frag defs n = Some f) names fs
+    /\ NoDup names
+    /\ forall n, In n names <-> reach (get_frag defs) (op_sel o) n).
+Check (C12_fragment_text_denotes :
+  forall defs f,
+  In (DFrag f) defs -> forallb wf_def defs = true -> spreads_defined_b defs = true ->
+  exists t names fs,
+    runtime_text defs (DFrag f) = Ok t
+    /\ read_document t = Some (erase_frag f :: map erase_frag fs)
+    /\ Forall2 (fun n g => get_frag defs n = Some g) names fs
+    /\ NoDup names
+    /\ forall n, In n names <-> (reach (get_frag defs) (fr_sel f) n /\ n <> iname (fr_name f))).
+Check (C12_document_texts_total :
+  forall d,
+  forallb wf_def (od_defs d) = true -> spreads_defined_b (od_defs d) = true ->
+  exists ts, document_runtime_texts d = Ok ts /\ length ts = length (od_defs d)).
 Print Assumptions C12_to_json_roundtrip.
 Print Assumptions C12_to_json_roundtrip_def.
 Print Assumptions C12_closure_terminates.
@@ -77,3 +106,9 @@ Print Assumptions C12_operation_document_denotes.
 Print Assumptions C12_fragment_document_denotes.
 Print Assumptions C12_get_frag_iff.
 Print Assumptions C12_undefined_spread_panics_refuted.
+Print Assumptions C12_parse_ser.
+Print Assumptions C12_printer_builds_no_numbers.
+Print Assumptions C12_text_roundtrip.
+Print Assumptions C12_operation_text_denotes.
+Print Assumptions C12_fragment_text_denotes.
+Print Assumptions C12_document_texts_total.
